@@ -48,4 +48,41 @@ def ofBits (b : Nat) : Option F :=
   else if ex = 0 then some ⟨fr, -1074⟩
   else some ⟨fr + 2 ^ 52, (ex : Int) - 1075⟩
 
+
+/-! ### square root (IEEE-754 `sqrt` is a basic operation: correctly rounded by the hardware,
+`f64::sqrt` compiles to `sqrtsd`) -/
+
+/-- digit-by-digit integer square root: invariant `r^2 ≤ n < (r + 2^k)^2` -/
+def isqrtAux (n : Nat) : Nat → Nat → Nat
+  | 0, r => r
+  | k + 1, r =>
+    let c := r + 2 ^ k
+    if c * c ≤ n then isqrtAux n k c else isqrtAux n k r
+
+/-- `⌊√n⌋` -/
+def isqrt (n : Nat) : Nat := isqrtAux n (bitlen n / 2 + 1) 0
+
+/-- correctly rounded (RNE) square root of a non-negative double: the mantissa is scaled by an
+    even power of two to at least 110 bits, `⌊√·⌋` has at least 55 bits, the inexact flag is the sticky bit -/
+def sqrt (x : F) : F :=
+  if x.m = 0 then ⟨0, 0⟩
+  else
+    -- exponent of the scaled mantissa must be even: e - t even
+    let t : Nat := if (x.e - 110) % 2 = 0 then 110 else 111
+    let n := x.m * 2 ^ t
+    let r := isqrt n
+    let sticky := decide (r * r ≠ n)
+    let d := bitlen r - 53
+    let m := shiftRNE r d sticky
+    let e : Int := (x.e - t) / 2
+    if m = 2 ^ 53 then ⟨2 ^ 52, e + (d : Int) + 1⟩ else ⟨m, e + (d : Int)⟩
+
+def two : F := ⟨2, 0⟩
+
+/-- `std::f64::consts::PI` = 0x400921FB54442D18 -/
+def PI : F := ⟨0x1921FB54442D18, -51⟩
+
+/-- `PI / 2` (exact) -/
+def halfPI : F := ⟨0x1921FB54442D18, -52⟩
+
 end Sm.F64
